@@ -297,8 +297,12 @@ func (s *InmemStore) Reset(frame *Frame) error {
 	s.consensusCache = cm.NewRollingIndex("ConsensusCache", s.cacheSize)
 	s.lastConsensusEvents = map[string]string{}
 
-	//Set Roots from Frame
-	s.roots = frame.Roots
+	//Set Roots from Frame. Copy the map: the store adds Roots for new
+	//participants later on, which must not alter the Frame (and its hash).
+	s.roots = make(map[string]*Root, len(frame.Roots))
+	for p, root := range frame.Roots {
+		s.roots[p] = root
+	}
 
 	for round, ps := range frame.PeerSets {
 		if err := s.SetPeerSet(round, peers.NewPeerSet(ps)); err != nil {
